@@ -34,7 +34,7 @@ def run_streams(res, exe, bdir, pid, seeds, tier):
         ops, impl, model = (os.path.join(bdir, "%s_%d.txt" % (x, sd)) for x in ("ops", "impl", "model"))
         rc, out = sh([exe, ops, impl, tier], env={"VERIF_SEED": str(sd)}, timeout=3000)
         if rc != 0:
-            ep = episode_of(ops, 10 ** 9) if os.path.exists(ops) else [""]
+            ep = (episode_of(ops, 10 ** 9) if os.path.exists(ops) else []) or [""]
             site = asan_site(out)
             os.makedirs(os.path.join(ROOT, "replays"), exist_ok=True)
             rp = os.path.join(ROOT, "replays", "%s-crash-seed%d.txt" % (pid, sd))
